@@ -33,7 +33,7 @@ def tok(s):
 
 
 TOKENS_BASE = ["and", "or", "not", "in", "is", "empty", "contains", "matches", "any", "all", "as",
-               "a", "foo", "x1", "a/b", "_", "notx", "B",
+               "a", "foo", "x1", "a/b", "_", "notx", "B", ".1a", "._b", ".b", ".0", ".01", ".2nd",
                "0", "1", "12", "1.5", "-1", "01", "1.",
                '"a"', "`a`", '""', '"/a"', '"a\\n"', '"\\q"', '"a', "`a", "`a\r`", '"a\nb"', '"/a~1b"', '"/m/a~01b"',
                "(", ")", "{", "}", "[", "]", ",", ".", "==", "!=", "=", "!", "\t", "\n"]
